@@ -14,6 +14,7 @@ pub mod c08;
 pub mod c09;
 pub mod c10;
 pub mod c11;
+pub mod c12;
 pub mod c15;
 pub mod c16;
 pub mod c18;
@@ -42,6 +43,7 @@ pub const PROPS: &[Prop] = &[
     Prop { id: "C09", run: c09::run, replay: c09::replay, leg: None },
     Prop { id: "C10", run: c10::run, replay: c10::replay, leg: None },
     Prop { id: "C11", run: c11::run, replay: c11::replay, leg: None },
+    Prop { id: "C12", run: c12::run, replay: c12::replay, leg: None },
     Prop { id: "C15", run: c15::run, replay: c15::replay, leg: None },
     Prop { id: "C16", run: c16::run, replay: c16::replay, leg: None },
     Prop { id: "C18", run: c18::run, replay: c18::replay, leg: None },
